@@ -8,8 +8,8 @@ REBASED=0
 ID=$1; X=$2; SRC=$3
 WT=$(mktemp -d /tmp/seedchk.XXXXXX)
 rmdir "$WT"
-git -C /repo worktree add -q --detach "$WT" HEAD || exit 3
-cleanup() { git -C /repo worktree remove --force "$WT" >/dev/null 2>&1; rm -rf "$WT"; }
+flock /tmp/fim_wt.lock git -C /repo worktree add -q --detach "$WT" HEAD || exit 3
+cleanup() { flock /tmp/fim_wt.lock git -C /repo worktree remove --force "$WT" >/dev/null 2>&1; rm -rf "$WT"; }
 trap cleanup EXIT
 cd "$WT" || exit 3
 mkdir -p "$WT/OUT/$ID-$X"; cp "$SRC/demo.py" "$WT/OUT/$ID-$X/demo.py"
